@@ -111,6 +111,26 @@ fn main() {
             }
             std::fs::write(args.out(), serde_json::to_string(&json!({"worlds": index, "discarded_invalid": discarded, "gave_up": gave_up})).unwrap()).unwrap();
         }
+        "hash-order-worlds" => {
+            // write the directed hash-order-sensitive worlds + an index
+            let dir = args.str("dir", ".");
+            std::fs::create_dir_all(&dir).unwrap();
+            let mut index = vec![];
+            for (name, wit) in genrun::hash_order_worlds() {
+                let path = format!("{dir}/ho-{name}.wit");
+                std::fs::write(&path, &wit).unwrap();
+                let valid = witgen::parse(&wit).and_then(|(r, id)| witgen::check_encodable(&r, id).map(|_| (r, id)));
+                match valid {
+                    Ok((r, id)) => {
+                        let tags = genrun::features_of(&r, id);
+                        index.push(json!({"name": name, "path": path, "valid": true, "shape": genrun::world_shape(&r, id, &tags),
+                                          "interfaces": r.interfaces.len(), "types": r.types.len(), "packages": r.packages.len()}));
+                    }
+                    Err(e) => index.push(json!({"name": name, "path": path, "valid": false, "error": format!("{e:#}")})),
+                }
+            }
+            std::fs::write(args.out(), serde_json::to_string(&json!({"worlds": index})).unwrap()).unwrap();
+        }
         "validate" => {
             // exit 0 iff the file is a valid world in the sense of witgen::generate_valid
             let text = std::fs::read_to_string(args.free.get(1).expect("file")).expect("read");
